@@ -17,8 +17,8 @@ import (
 	"testing"
 	"time"
 
-	client "github.com/liftbridge-io/liftbridge-api/v2/go"
 	"github.com/hashicorp/raft"
+	client "github.com/liftbridge-io/liftbridge-api/v2/go"
 	"github.com/nats-io/nats.go"
 	pb "google.golang.org/protobuf/proto"
 
